@@ -13,6 +13,8 @@ package c02
 
 import (
 	"fmt"
+	"os"
+	"runtime/debug"
 	"strings"
 	"sync"
 
@@ -123,6 +125,10 @@ func firstRejected(rt *v6ref.Msg) string {
 }
 
 func Run(c *fw.Ctx) {
+	// the live heap is tiny and the allocation rate huge: collect less often
+	if os.Getenv("GOGC") == "" {
+		defer debug.SetGCPercent(debug.SetGCPercent(800))
+	}
 	c.SetRule("values are enumerated injectively (every type x xid x option sequence up to the bound over the instance corpus, every instance x container, every listed chain/relay chain once); every case is non-trivial in the sense that the value is encoded, decoded by library and reference, and all three trees are compared; non-trivial count = cases whose comparisons all ran")
 	if tab, err := adapt.ExtractV6OptionTable(); err != nil {
 		c.Extra("option_table_error", err.Error())
